@@ -11,7 +11,7 @@ Local Open Scope string_scope.
    written against: which object, which field or accessor, which C type *)
 Lemma meta_preludes_as_modelled :
   by_pid_prelude = ["int id1 = proc_get_pid(p1)"; "int id2 = proc_get_pid(p2)"] /\
-  by_rank_prelude = ["int id1 = p1->rank"; "int id2 = p2->rank"] /\
+  by_rank_prelude = ["int id1 = p1->rank"; "int id2 = p2->rank"; "int pid1 = proc_get_pid(p1)"; "int pid2 = proc_get_pid(p2)"] /\
   by_phyid_prelude = ["int id1 = cpu_get_phyid(c1)"; "int id2 = cpu_get_phyid(c2)"] /\
   by_tid_prelude = ["int id1 = thread_get_tid(t1)"; "int id2 = thread_get_tid(t2)"] /\
   cmp_loom_rank_prelude = ["int id1 = a->rank_min"; "int id2 = b->rank_min"] /\
@@ -26,10 +26,14 @@ Proof. repeat split; reflexivity. Qed.
 Local Close Scope string_scope.
 
 Lemma by_pid_core_cmp3 a b : by_pid_core a b = cmp3 a b.       Proof. unfold by_pid_core. three. Qed.
-Lemma by_rank_core_cmp3 a b : by_rank_core a b = cmp3 a b.     Proof. unfold by_rank_core. three. Qed.
+(* rank, then PID (the tie-break of patches/fix-c15-rank-ties.diff) *)
+Lemma by_rank_core_lex a b p q : by_rank_core a b p q = if a =? b then cmp3 p q else cmp3 a b.
+Proof. unfold by_rank_core. destruct (a =? b) eqn:E; three. Qed.
 Lemma by_phyid_core_cmp3 a b : by_phyid_core a b = cmp3 a b.   Proof. unfold by_phyid_core. three. Qed.
 Lemma by_tid_core_cmp3 a b : by_tid_core a b = cmp3 a b.       Proof. unfold by_tid_core. three. Qed.
-Lemma cmp_loom_rank_core_cmp3 a b : cmp_loom_rank_core a b = cmp3 a b. Proof. unfold cmp_loom_rank_core. three. Qed.
+(* minimum rank, then name *)
+Lemma cmp_loom_rank_core_lex a b x y : cmp_loom_rank_core a b x y = if a =? b then strcmp x y else cmp3 a b.
+Proof. unfold cmp_loom_rank_core, get_id. destruct (a =? b) eqn:E; three. Qed.
 
 Lemma strcmp_le_meta : forall a b, (strcmp a b <=? 0) = str_le a b.
 Proof.
@@ -56,32 +60,45 @@ Lemma meta_cpus_sorted_by_phyid (l : list (Z * Z)) :
   isort (fun c d => snd c <=? snd d) l = isort (fun c d => by_phyid_core (snd c) (snd d) <=? 0) l.
 Proof. apply isort_ext. intros. rewrite by_phyid_core_cmp3. symmetry. apply cmp3_le. Qed.
 
-Lemma meta_procs_sorted_by_rank_or_pid (enabled : bool) (rank : Z -> Z) l :
-  isort (fun p q => if enabled then rank p <=? rank q else p <=? q) l =
-  isort (fun p q => if enabled then by_rank_core (rank p) (rank q) <=? 0 else by_pid_core p q <=? 0) l.
+(* the order of the processes of a loom and of the looms, as the model defines them *)
+Lemma proc_le_from_source st l p q :
+  proc_le true st l p q =
+  if rank_enabled st l then by_rank_core (rank_of st (l, p)) (rank_of st (l, q)) p q <=? 0 else by_pid_core p q <=? 0.
 Proof.
-  apply isort_ext. intros a b. destruct enabled; [rewrite by_rank_core_cmp3 | rewrite by_pid_core_cmp3]; symmetry; apply cmp3_le.
+  unfold proc_le. destruct (rank_enabled st l).
+  - rewrite by_rank_core_lex. destruct (rank_of st (l, p) =? rank_of st (l, q)) eqn:E.
+    + rewrite cmp3_le. apply Z.eqb_eq in E. rewrite E, Z.ltb_irrefl. reflexivity.
+    + rewrite cmp3_le. cbn [andb]. rewrite orb_false_r. lia.
+  - rewrite by_pid_core_cmp3, cmp3_le. reflexivity.
 Qed.
 
-Lemma meta_looms_sorted_by_rank_or_name (by_rank : bool) (rmin : name -> Z) l :
-  isort (fun a b => if by_rank then rmin a <=? rmin b else str_le a b) l =
-  isort (fun a b => if by_rank then cmp_loom_rank_core (rmin a) (rmin b) <=? 0 else cmp_loom_id_core a b <=? 0) l.
+Lemma loom_le_from_source st br a b :
+  loom_le true st br a b =
+  if br then cmp_loom_rank_core (rank_min st a) (rank_min st b) a b <=? 0 else cmp_loom_id_core a b <=? 0.
 Proof.
-  apply isort_ext. intros a b. destruct by_rank; symmetry;
-    [rewrite cmp_loom_rank_core_cmp3; apply cmp3_le | apply cmp_loom_id_is_model_order].
+  unfold loom_le. destruct br.
+  - rewrite cmp_loom_rank_core_lex. destruct (rank_min st a =? rank_min st b) eqn:E.
+    + rewrite strcmp_le_meta. apply Z.eqb_eq in E. rewrite E, Z.ltb_irrefl. reflexivity.
+    + rewrite cmp3_le. cbn [andb]. rewrite orb_false_r. lia.
+  - symmetry. apply cmp_loom_id_is_model_order.
 Qed.
 
-(* [sort_loom] and the loom order of [finish], restated over the translated comparators *)
+Lemma meta_looms_sorted_from_source st br l :
+  isort (loom_le true st br) l =
+  isort (fun a b => if br then cmp_loom_rank_core (rank_min st a) (rank_min st b) a b <=? 0 else cmp_loom_id_core a b <=? 0) l.
+Proof. apply isort_ext. intros. apply loom_le_from_source. Qed.
+
+(* [sort_loom] restated over the translated comparators *)
 Lemma sort_loom_from_source st l :
   sort_loom st l =
   (l,
    map (fun p => (p, app_of st (l, p), isort (fun a b => by_tid_core a b <=? 0) (threads_of st (l, p))))
-       (isort (fun p q => if rank_enabled st l then by_rank_core (rank_of st (l, p)) (rank_of st (l, q)) <=? 0
+       (isort (fun p q => if rank_enabled st l then by_rank_core (rank_of st (l, p)) (rank_of st (l, q)) p q <=? 0
                           else by_pid_core p q <=? 0) (procs_of st l)),
    isort (fun c d => by_phyid_core (snd c) (snd d) <=? 0) (cpus_of st l)).
 Proof.
-  unfold sort_loom.
-  rewrite (meta_procs_sorted_by_rank_or_pid (rank_enabled st l) (fun p => rank_of st (l, p))).
+  unfold sort_loom, sort_loom_gen.
+  rewrite (isort_ext (proc_le true st l) _ (proc_le_from_source st l)).
   rewrite meta_cpus_sorted_by_phyid.
   f_equal. f_equal. apply map_ext. intro p. rewrite meta_threads_sorted_by_tid. reflexivity.
 Qed.
